@@ -166,11 +166,11 @@ Proof.
   rewrite Hin in H. discriminate.
 Qed.
 
-(* D8: oneofs are not renamed *)
-Lemma oneof_method_clash_refuted :
-  ~ (forall fields oneofs, forall m, In m (struct_members fields oneofs) -> ~ In m reserved).
+(* D8 (fixed): oneofs are struct members too and are renamed like fields *)
+Lemma no_member_method_clash : forall fields oneofs m, In m (struct_members fields oneofs) -> ~ In m reserved.
 Proof.
-  intros H. apply (H [] [nth 1 reserved []] (nth 1 reserved [])); vm_compute; auto.
+  intros fields oneofs m H. unfold struct_members in H. apply in_app_or in H.
+  destruct H as [H|H]; apply in_map_iff in H; destruct H as [g [E _]]; subst; apply no_field_method_clash_In.
 Qed.
 
 (* D15: the rename is applied after protogen made members and getters unique *)
